@@ -122,6 +122,29 @@ theorem realistic_values_removed :
       (strBytes "Proxy-Authorization", [strBytes "Basic dXNlcjpwYXNz"]), (kTE, [strBytes "gzip, chunked"])]) = [] := by
   decide
 
+/-- STATUS-INDEPENDENT: on the response side hop-by-hop removal happens for EVERY status code
+(101 Switching Protocols, 1xx, 204, 304, 407, 426, 5xx, unassigned codes alike) — the modifier alone and
+the stack with or without a loop: the header that comes out is `removeHopByHop` of the header that
+went in, whatever the status, the status itself is untouched by the hop-by-hop modifier, and no
+removed key survives. -/
+theorem response_hop_by_hop_any_status (st : Nat) (key : Bool) (h : Header) :
+    (hbhRes key { hdr := h, status := st }).1 = { hdr := removeHopByHop h, status := st } ∧
+    (stackRes key { hdr := h, status := st }).1.hdr = removeHopByHop h ∧
+    (∀ k ∈ removedKeys h, k ∉ keys (stackRes key { hdr := h, status := st }).1.hdr) ∧
+    (∀ st', (stackRes key { hdr := h, status := st' }).1.hdr = (stackRes key { hdr := h, status := st }).1.hdr) := by
+  have hs : ∀ s, (stackRes key { hdr := h, status := s }).1.hdr = removeHopByHop h := by
+    intro s; rw [stackRes_unfold]; cases key <;> rfl
+  refine ⟨rfl, hs st, ?_, fun st' => by rw [hs st', hs st]⟩
+  intro k hk
+  rw [hs st]
+  exact removed_not_in_keys hk
+
+/-- Test (evaluation): a `101 Switching Protocols` response loses `Connection`, `Upgrade`, `Keep-Alive`
+and the Connection-named `Sec-Websocket-Accept`; `Etag` stays. -/
+example : keys (stackRes false { hdr := [(kConnection, [strBytes "Upgrade, Sec-WebSocket-Accept"]), (strBytes "Upgrade", [strBytes "websocket"]),
+    (strBytes "Sec-Websocket-Accept", [strBytes "x"]), (strBytes "Keep-Alive", [strBytes "timeout=5"]), (strBytes "Etag", [strBytes "e"])], status := 101 }).1.hdr
+    = [strBytes "Etag"] := by decide
+
 /-- `ParsedKeys` is satisfiable by a header with oddly cased Connection tokens. -/
 example : ParsedKeys [(kConnection, [strBytes " KEEP-alive ,x-CUSTOM"]), (strBytes "X-Custom", [strBytes "1"]), (strBytes "Keep-Alive", [strBytes "timeout=5"])] := by
   intro k hk
